@@ -631,6 +631,14 @@ def collect():
     init = find_fn(*P_INIT)
     init_steps = translate_init(init, infos[init.key])
 
+    # ---- "only allowed once" rules
+    once_rules = []
+    for mod, qual in ONCE_FUNCTIONS:
+        k = f"{mod}:{qual}"
+        if k in by_key:
+            for t, a, c in once_rules_of(by_key[k]):
+                once_rules.append((k, t, a, c))
+
     # ---- conservative call graph
     by_name = {}
     for f in fns:
@@ -792,7 +800,7 @@ def collect():
     return {
         "digest": src_digest.hexdigest()[:16], "hierarchy": H, "handlers": handlers, "sites": sites,
         "init_steps": init_steps, "raise_rows": raise_rows, "prim_rows": prim_rows, "reach": reach,
-        "errors_classes": sorted(local),
+        "errors_classes": sorted(local), "once_rules": once_rules,
     }
 
 
@@ -816,6 +824,60 @@ def in_handler(fn_node, target):
         return None
     r = walk(fn_node, False)
     return bool(r)
+
+
+ONCE_FUNCTIONS = [("mcnp_problem.py", "MCNP_Problem.__load_data_inputs_to_object"), ("cells.py", "Cells.update_pointers")]
+
+
+def once_rules_of(fn):
+    """"only allowed once" rules of a function: a set S, a test `T in S` guarding a raise, and `S.add(Y)`:
+    -> [(tested expression, added expression, raised class)] with local names that are assigned exactly once by a
+    plain `name = expr` replaced by that expression (so `input_class = type(input)` and `type(input)` read the same)"""
+    assigns = {}
+    counts = {}
+    for n in own_nodes(fn.node):
+        if isinstance(n, ast.Assign) and len(n.targets) == 1 and isinstance(n.targets[0], ast.Name):
+            counts[n.targets[0].id] = counts.get(n.targets[0].id, 0) + 1
+            assigns[n.targets[0].id] = n.value
+        elif isinstance(n, (ast.For, ast.AugAssign)):
+            tg = n.target
+            for x in ast.walk(tg):
+                if isinstance(x, ast.Name):
+                    counts[x.id] = counts.get(x.id, 0) + 2
+
+    def norm(e, depth=0):
+        import copy
+        e = copy.deepcopy(e)
+
+        class Sub(ast.NodeTransformer):
+            def visit_Name(self, node):
+                if depth < 4 and counts.get(node.id) == 1 and node.id in assigns and isinstance(node.ctx, ast.Load):
+                    return ast.parse(norm(assigns[node.id], depth + 1), mode="eval").body
+                return node
+        e = Sub().visit(e)
+        return ast.unparse(e)
+
+    adds = {}
+    for n in own_nodes(fn.node):
+        if isinstance(n, ast.Call) and isinstance(n.func, ast.Attribute) and n.func.attr == "add" \
+                and isinstance(n.func.value, ast.Name) and len(n.args) == 1:
+            adds.setdefault(n.func.value.id, []).append(norm(n.args[0]))
+    rules = []
+    for n in own_nodes(fn.node):
+        if not isinstance(n, ast.If):
+            continue
+        for c in ast.walk(n.test):
+            if isinstance(c, ast.Compare) and len(c.ops) == 1 and isinstance(c.ops[0], ast.In) \
+                    and isinstance(c.comparators[0], ast.Name) and c.comparators[0].id in adds:
+                raised = [r for st in n.body for r in ast.walk(st) if isinstance(r, ast.Raise) and r.exc is not None]
+                if not raised:
+                    continue
+                cls_ = raised_class(raised[0], None, fn.mod)
+                if cls_ == "reraise":
+                    continue
+                for y in adds[c.comparators[0].id]:
+                    rules.append((norm(c.left), y, cls_[1]))
+    return rules
 
 
 def translate_init(fn, info):
@@ -962,6 +1024,11 @@ def render(T):
     o.append("")
     o.append("Definition gen_tables : tables := mktables gen_hierarchy gen_handlers gen_sites gen_init_steps "
              "gen_raise_rows gen_prim_rows.")
+    o.append("")
+    o.append("(* `only allowed once` rules: function, the expression tested for membership in the set of inputs seen, the "
+             "expression added to that set (locals assigned once are expanded), the class raised *)")
+    o.append("Definition gen_once_rules : list once_rule := " + clist(
+        f"mkonce {cs(k)} {cs(t)} {cs(a)} {cs(c)}" for k, t, a, c in T.get("once_rules", [])) + ".")
     o.append("")
     o.append("(* the same hierarchy and site chains in the wire format the harness sends to the extracted model *)")
     o.append("Definition gen_hierarchy_wire : string := " + cs(hier_wire(H)) + ".")
